@@ -36,6 +36,9 @@ type lreq struct {
 	Family string `json:"family,omitempty"`
 	// ShortBy > 0 declares a Content-Length that many bytes larger than the body.
 	ShortBy int `json:"shortBy,omitempty"`
+	// EncTail is appended to the path of an object request as it is: percent-encoded characters
+	// that belong to the key (e.g. "%2F": the key ends in an encoded slash).
+	EncTail string `json:"encTail,omitempty"`
 }
 
 func (l lreq) pathStyle() *s3x.Req {
@@ -60,6 +63,9 @@ func (l lreq) pathStyle() *s3x.Req {
 		p = "//" + p + "//"
 	}
 	rq := &s3x.Req{Method: l.Method, Path: p, Query: l.Query, Header: l.Header, Body: l.Body}
+	if l.Key != "" && l.RawPath == "" && l.Slash == "" {
+		rq.RawSuffix = l.EncTail
+	}
 	if l.ShortBy > 0 {
 		rq.ContentLength = s3x.I64(int64(len(l.Body) + l.ShortBy))
 	}
@@ -614,6 +620,10 @@ func genRequest(rt *rapid.T, c *genCtx) lreq {
 				l.Slash = "trail"
 			}
 		}
+	}
+	if c.HostStyle && l.Key != "" && l.Slash == "" && l.RawPath == "" && rapid.IntRange(0, 11).Draw(rt, "enctail?") == 0 {
+		// percent-encoded characters at the end of the key: the same object in both addressing styles
+		l.EncTail = rapid.SampledFrom([]string{"%2F", "%2F%2F", "%2f", "%20", "%2B", "%25", "%3F"}).Draw(rt, "enctail")
 	}
 	if c.hostile(rt) && rapid.IntRange(0, 9).Draw(rt, "xdate?") == 0 {
 		addH("x-amz-date", rapid.SampledFrom([]string{"20200102T030405Z", "19700101T000000Z", "garbage", "20990101T000000Z", ""}).Draw(rt, "xdate"))
